@@ -853,9 +853,24 @@ func c18Wiring(t *testing.T, r *vres.Report, dir string) {
 		files = append(files, map[string]int{n: 7}, map[string]int{n: 1})
 	}
 	files = append(files, map[string]int{})
+	// numbers of seconds around and far beyond what a time.Duration can hold (9223372036 s):
+	// the product with 10^9 wraps around 2^64 to a negative number, to a small positive one
+	// (18446744074 s -> 0.29 s), or to exactly zero (2^62 s) - none of which is the setting
+	const maxSec = 9223372036
+	for _, n := range names {
+		for _, v := range []int{maxSec, maxSec + 1, 18446744074, 20000000000, 1 << 62, 1<<63 - 1} {
+			files = append(files, map[string]int{n: v})
+		}
+	}
 	var evals int64
 	var outs vres.Outcomes
 	for _, set := range files {
+		representable := true
+		for _, v := range set {
+			if v > maxSec {
+				representable = false
+			}
+		}
 		y := "server:\n  port: 8080\n"
 		if len(set) > 0 {
 			y += "  timeouts:\n"
@@ -868,8 +883,17 @@ func c18Wiring(t *testing.T, r *vres.Report, dir string) {
 		y += "backends:\n  - name: base1\n    address: http://127.0.0.1:9\n  - name: base2\n    address: http://127.0.0.1:10\n"
 		cfg, err := c18Load(dir, "wiring.yaml", y)
 		evals++
+		if err != nil && !representable {
+			outs.Add("beyond-a-duration/refused")
+			continue
+		}
 		if err != nil {
 			r.Violate("C18/valid-configuration-rejected/timeouts", fmt.Sprintf("timeouts %v: %v", set, err), 5, map[string]interface{}{"yaml": y})
+			continue
+		}
+		if !representable {
+			outs.Add("beyond-a-duration/accepted")
+			r.Violate("C18/setting-not-in-force/seconds-no-duration-can-hold", fmt.Sprintf("server.timeouts %v is accepted, but no time.Duration holds that many seconds (at most %d): whatever the server runs with (createHTTPServer gives read/write/idle %v/%v/%v), it is not this setting", set, maxSec, createHTTPServer(cfg, nil).ReadTimeout, createHTTPServer(cfg, nil).WriteTimeout, createHTTPServer(cfg, nil).IdleTimeout), 5, map[string]interface{}{"yaml": y})
 			continue
 		}
 		want := func(n string) time.Duration {
@@ -913,7 +937,7 @@ func c18Wiring(t *testing.T, r *vres.Report, dir string) {
 	}
 	r.AddScenario(vres.Scenario{Name: "timeouts-arrive-where-documented", Engine: "W", Evaluations: evals, Distinct: int64(outs.N()), Outcomes: outs.N(),
 		Rule:  "one evaluation = one file loaded with the real LoadConfig, the listening server built with the real createHTTPServer and the balancer with the real NewLoadBalancer; read / write / idle are read off the server, backend_read / backend_idle off every backend's transport; distinct = (setting, as documented) classes",
-		Bound: fmt.Sprintf("%d files: all eight timeouts with distinct values, each one alone (7 and 1) with the others omitted, none", len(files)), Exhaustive: true,
+		Bound: fmt.Sprintf("%d files: all eight timeouts with distinct values, each one alone (7 and 1) with the others omitted, none, and each one alone with 9223372036 s (the most a Duration holds: must be in force) and five larger numbers whose product with 10^9 wraps to a negative, a small positive or a zero Duration (must be refused)", len(files)), Exhaustive: true,
 		Extra: map[string]interface{}{"wall_s": time.Since(start).Seconds()}})
 }
 
@@ -1012,9 +1036,11 @@ func c18Magnitudes(t *testing.T, r *vres.Report, dir string) {
 	if repo == "" {
 		repo = "/repo"
 	}
-	values := []int{1<<31 - 1, 1 << 31, 9223372036, 9223372037, 1<<63 - 1}
+	// (18446744074 and 2^62: as numbers of seconds their product with 10^9 wraps around 2^64 to a
+	// small positive Duration and to zero - an overflow that a sign test does not see)
+	values := []int{1<<31 - 1, 1 << 31, 9223372036, 9223372037, 18446744074, 1 << 62, 1<<63 - 1}
 	if vres.Thorough() {
-		values = append(values, 1<<32, 1<<53, 1<<53+1, 9223372035, 9223372038, 1<<62, 1<<63-2)
+		values = append(values, 1<<32, 1<<53, 1<<53+1, 9223372035, 9223372038, 20000000000, 1<<63-2)
 	}
 	type job struct {
 		f c18Field
@@ -1126,7 +1152,7 @@ func c18Magnitudes(t *testing.T, r *vres.Report, dir string) {
 	}
 	r.AddScenario(vres.Scenario{Name: "large-magnitudes", Engine: "P", Evaluations: int64(len(jobs)), Distinct: int64(outs.N()), Outcomes: outs.N(),
 		Rule:  "one evaluation = one file (minimal valid base + one numeric field without a documented upper limit at a large value) loaded with the real LoadConfig and, if accepted, started with the real binary: it must answer on the proxy port and keep running, or exit non-zero without a panic trace; distinct = (field, refused / works / start-up error / crashed / broken) classes",
-		Bound: fmt.Sprintf("%d numeric fields x %d magnitudes (2^31-1, 2^31, 9223372036 = the most seconds a Duration holds, 9223372037, 2^63-1%s)", len(jobs)/len(values), len(values), map[bool]string{true: ", 2^32, 2^53, 2^53+1, 9223372035, 9223372038, 2^62, 2^63-2"}[vres.Thorough()]), Exhaustive: true,
+		Bound: fmt.Sprintf("%d numeric fields x %d magnitudes (2^31-1, 2^31, 9223372036 = the most seconds a Duration holds, 9223372037, 18446744074, 2^62, 2^63-1%s)", len(jobs)/len(values), len(values), map[bool]string{true: ", 2^32, 2^53, 2^53+1, 9223372035, 9223372038, 20000000000, 2^63-2"}[vres.Thorough()]), Exhaustive: true,
 		Extra: map[string]interface{}{"wall_s": time.Since(start).Seconds()}})
 }
 
